@@ -28,7 +28,7 @@ ASSUMPTIONS = ['inputs the real parser rejects are skipped; the reference re-rea
                'same tree (else input_not_es5)',
                'line continuations inside string literals are stripped by design; stand-alone empty statements in '
                'statement lists may be removed by semicolon dropping']
-BUDGET_S = {'quick': 70, 'thorough': 900}
+BUDGET_S = {'quick': 120, 'thorough': 900}
 REQUIRED_HITS = ['identifier_boundary', 'minify_print', 'reparse', 'reference_reread', 'space_minimum_decision', 'semicolon_dropped',
                  'tree_with_captured_comments']
 FLOOR = {'quick': 3000, 'thorough': 40000}
